@@ -212,6 +212,10 @@ def main():
         print(json.dumps({"violations": [r.key for r in uviol]}))
 
     vdir = os.path.join(VERIF, "evidence", "violations")
+    if not args.no_evidence and os.path.isdir(vdir):
+        for fn in os.listdir(vdir):
+            if fn.startswith(prop + "-"):
+                os.remove(os.path.join(vdir, fn))
     for r in kn:
         print("KNOWN-FINDING: property=%s %s -- %s" % (prop, r.key, known[r.key].get("what", "")))
     rc = 0
